@@ -36,6 +36,7 @@ from comb_spec_searcher.strategies.strategy import StrategyFactory, Verification
 
 
 LAZY_MIN = 0  # see PW.minimum_size_of_object; set per job by the rule-level checks
+LOOSE_EMPTY = False  # strategies that declare their children non-empty also apply to empty classes (C04: such children must be kept)
 COMPRESS = False  # classes implement to_bytes/from_bytes (stored compressed by ClassDB) and hash weakly; set per job by C04
 
 
@@ -307,7 +308,7 @@ class Peel(_ModeMixin, CartesianProductStrategy):
         return res
 
     def decomposition_function(self, c):
-        if isinstance(c, SW) or c.just_prefix or safe_front(c) <= 0 or c.is_empty():
+        if isinstance(c, SW) or c.just_prefix or safe_front(c) <= 0 or (c.is_empty() and not LOOSE_EMPTY):
             return None  # (declares its children non-empty: does not apply to an empty class)
         return tuple(k for k, _ in self._kids(c))
 
@@ -337,7 +338,7 @@ class Reduce(DisjointUnionStrategy):
         super().__init__(ignore_parent=True, inferrable=True, possibly_empty=False, workable=True)
 
     def decomposition_function(self, c):
-        if isinstance(c, SW) or c.is_empty():
+        if isinstance(c, SW) or (c.is_empty() and not LOOSE_EMPTY):
             return None
         red = [p for p in c.patterns if not any(q != p and q in p for q in c.patterns)]
         if len(red) == len(c.patterns):
@@ -376,7 +377,7 @@ class Swap(SymmetryStrategy):
         return str.maketrans(al[0] + al[1], al[1] + al[0])
 
     def decomposition_function(self, c):
-        if isinstance(c, SW) or len(c.alphabet) != 2 or c.is_empty():
+        if isinstance(c, SW) or len(c.alphabet) != 2:  # (applies to empty classes too: the searcher copies the emptiness to the image)
             return None
         t = self._t(c)
         return (PW(c.prefix.translate(t), [p.translate(t) for p in c.patterns], c.alphabet, c.just_prefix,
